@@ -107,6 +107,7 @@ func GetMatchedIndices(block *bchutil.Block, filter *Filter) map[int]bool {
 	bf := blockFilterer{matchedIndices: make(map[int]bool), filter: filter}
 	inputs := make(map[chainhash.Hash][]*txWithIndex)
 	for txIndex, tx := range block.Transactions() {
+		simPoint(siteBlockTx, nil)
 		for _, in := range tx.MsgTx().TxIn {
 			inputTxs := inputs[in.PreviousOutPoint.Hash]
 			inputTxs = append(inputTxs, &txWithIndex{tx, txIndex})
